@@ -1,4 +1,88 @@
-/- Driver for C14 (stub: not built yet). -/
+/-
+Driver for C14 (closed-form transformers).  Import-free apart from the models.
+Line:  `<op> <fields…>` (the leading property id is stripped by `runLoop`).
+Panels: instances separated by `|`, columns by `;`, values by `,`; an empty cell is `e`.
+Tables (2-D): rows separated by `|`, values by `,`; an empty row is `e`.
+-/
+import SkVerif.Model.C14Interp
+import SkVerif.Drv.Parse
 namespace SkVerif.Drv.C14
-def handle (_toks : List String) : String := "bad-op"
+open SkVerif SkVerif.C14 SkVerif.Drv
+
+def showErr : Err → String
+  | .value => "E:value" | .type => "E:type" | .index => "E:index" | .attr => "E:attr"
+  | .notimpl => "E:notimpl" | .other => "E:other"
+
+def showE {α} (f : α → String) : Except Err α → String
+  | .ok a => f a
+  | .error e => showErr e
+
+def parseCell? (s : String) : Option Cell :=
+  if s == "e" then some [] else (s.splitOn ",").mapM parseRat?
+
+def parseInst? (s : String) : Option Inst := (s.splitOn ";").mapM parseCell?
+
+/-- `0` = panel without instances -/
+def parsePanel? (s : String) : Option Panel :=
+  if s == "0" then some [] else (s.splitOn "|").mapM parseInst?
+
+def showCell (c : Cell) : String := if c.isEmpty then "e" else ",".intercalate (c.map showRat)
+def showInst (i : Inst) : String := ";".intercalate (i.map showCell)
+def showPanel (p : Panel) : String := if p.isEmpty then "0" else "|".intercalate (p.map showInst)
+def showTable (t : List (List Rat)) : String := if t.isEmpty then "0" else "|".intercalate (t.map showCell)
+
+def parseOInt? (s : String) : Option (Option Int) :=
+  if s == "none" then some none else (parseInt? s).map some
+
+def parseKind? (s : String) : Option CellKind :=
+  if s == "S" then some .series else if s == "A" then some .array
+  else if s == "N" then some .numpy3d else none
+
+def parseIntParam? (s : String) : Option IntParam :=
+  if s == "notint" then some .notInt else (parseInt? s).map IntParam.int
+
+/-- `count:<k>` | `rows:<a>,<b>/<a>,<b>/…` | `other` -/
+def parseIntervals? (s : String) : Option Intervals :=
+  match s.splitOn ":" with
+  | ["count", k] => (parseInt? k).map Intervals.count
+  | ["rows", rs] => ((rs.splitOn "/").mapM parseIntList?).map Intervals.rows
+  | ["other"] => some .other
+  | _ => none
+
+def handle (toks : List String) : String :=
+  match toks with
+  | ["paa", k, x] =>
+    match parseIntParam? k, parsePanel? x with
+    | some k, some x => showE showPanel (paa k x)
+    | _, _ => "bad-op"
+  | ["iseg", iv, xfit, x] =>
+    match parseIntervals? iv, parsePanel? xfit, parsePanel? x with
+    | some iv, some xf, some x => showE showPanel (iseg iv xf x)
+    | _, _, _ => "bad-op"
+  | ["slide", w, x] =>
+    match parseIntParam? w, parsePanel? x with
+    | some w, some x => showE showPanel (slidingWindow w x)
+    | _, _ => "bad-op"
+  | ["interp", kind, len, x] =>
+    match parseKind? kind, parseIntParam? len, parsePanel? x with
+    | some k, some len, some x => showE showPanel (interpolate k len x)
+    | _, _, _ => "bad-op"
+  | ["pad", kind, padLen, fill, xfit, x] =>
+    match parseKind? kind, parseOInt? padLen, parseRat? fill, parsePanel? xfit, parsePanel? x with
+    | some k, some pl, some f, some xf, some x => showE showPanel (pad k pl f xf x)
+    | _, _, _, _, _ => "bad-op"
+  | ["trunc", kind, lower, upper, xfit, x] =>
+    match parseKind? kind, parseOInt? lower, parseOInt? upper, parsePanel? xfit, parsePanel? x with
+    | some k, some lo, some up, some xf, some x => showE showPanel (truncate k lo up xf x)
+    | _, _, _, _, _ => "bad-op"
+  | ["tab", x] =>
+    match parsePanel? x with
+    | some x => showE showTable (tabularize x)
+    | none => "bad-op"
+  | ["concat", x] =>
+    match parsePanel? x with
+    | some x => showE showPanel (columnConcat x)
+    | none => "bad-op"
+  | _ => "bad-op"
+
 end SkVerif.Drv.C14
